@@ -48,7 +48,7 @@ BLOCK_PROBES = ["p_block", "wake_one_spin", "wake_many_spin", "p_steal_hit"]
 
 PROPS = {
     "C01": {
-        "jobs": [fj({"reap_mask": 7, "stealfn": 0}, weight=5), fj({"reap_mask": 7, "stealfn": 0}, flavour="O0", weight=2),
+        "jobs": [fj({"reap_mask": 7, "stealfn": 0}, weight=4), fj({"reap_mask": 63, "stealfn": 0}, weight=2), fj({"reap_mask": 7, "stealfn": 0}, flavour="O0", weight=2),
                  fj({"reap_mask": 1, "stealfn": 0}, flavour="asan", weight=1), fj({"reap_mask": 7, "stealfn": 0}, flavour="fn", weight=1)],
         "relevant_probes": ["p_join_fast", "p_join_next", "p_join_sched", "p_finish_waiter", "p_finish_next", "p_finish_sched",
                             "p_entry_child_first", "p_entry_parent_first", "p_steal_hit"],
